@@ -236,6 +236,22 @@ def run_history(lines, tracks, attached, hist, initial="dense"):
         pat.tracks = tracks
         pat.clear()
         grid = [[(0, 0, 0, 0, 0) for _t in range(tracks)] for _l in range(lines)]
+    elif initial == "relined":
+        # the pattern was SHORTENED by one line, edited in bulk (only the lines it then had), and lengthened again: the
+        # line that was out of reach keeps what it held, and every later edit covers all lines again
+        if lines < 2:
+            return []
+        for l in range(lines):
+            for t in range(tracks):
+                n = pat.data[l][t]
+                n.note, n.vel, n.ctl, n.val = rv.NOTECMD(100 + l), 3, t, l
+        grid = grid_of(pat)
+        pat.lines = lines - 1
+        pat.set_via_fn(lambda p_, l_, t_: rv.Note(note=rv.NOTECMD(49), vel=11, module=2, ctl=0x0102, val=0x0304))
+        pat.lines = lines
+        for l in range(lines - 1):
+            for t in range(tracks):
+                grid[l][t] = (49, 11, 2, 0x0102, 0x0304)
     elif initial == "foreign":
         # contents as a file written by another program may hold them: note codes without a named command, velocities
         # above 129 (the byte image accepts any byte) -- untouched cells keep them, edits around them still work
@@ -333,7 +349,7 @@ def _task(t):
     for first in ops[first_lo:first_hi]:
         for rest in itertools.chain.from_iterable(itertools.product(ops, repeat=d) for d in range(0, depth)):
             hist = [first] + list(rest)
-            for initial in ("dense", "sparse0", "sparse3", "untouched") + (("reshaped+", "reshaped-", "foreign") if len(hist) == 1 else ()):
+            for initial in ("dense", "sparse0", "sparse3", "untouched") + (("reshaped+", "reshaped-", "foreign", "relined") if len(hist) == 1 else ()):
                 vs = run_history(lines, tracks, attached, hist, initial)
                 r["evals"] += 1
                 C.count(r, "histories")
